@@ -31,7 +31,9 @@ RULE = ('case = (function: gather_excs consumed by async-for | raise_first_exc; 
         '{return, EBase, ESub(EBase), [EOther,] BOnly(BaseException)} x every weak ordering of finishing times '
         '(ties included) x only in {default, Exception, EBase, ESub, BOnly}; random layer: 2..7 awaitables, random '
         'forests of 4..9 classes, delays 0..6, call tick 0..4 (tasks/futures may already be done), mixed forms, '
-        'aws given as list/tuple/generator.  observation = per-awaitable (completed|cancelled|pending, tick), every '
+        'aws given as list/tuple/generator; plus tasks / futures cancelled by the script before or during gather '
+        '(CancelledError results: all 1..2-element lists with at least one of them x only in {default, Exception, '
+        'CancelledError, BOnly} x both functions, and 20 % of the random cases).  observation = per-awaitable (completed|cancelled|pending, tick), every '
         'yield with tick and number of completed awaitables, how the consumer ended.  non-trivial = >= 2 awaitables, '
         '>= 1 failure and (>= 2 failures or finishing order <> input order), decided by Case_C20.nontrivial in Coq')
 EXHAUSTIVE_NOTE = ('all outcome lists x all weak orderings of finishing times for up to L awaitables '
@@ -39,12 +41,20 @@ EXHAUSTIVE_NOTE = ('all outcome lists x all weak orderings of finishing times fo
 ASSUMPTIONS = ['asyncio.gather(return_exceptions=True) is a modelled primitive (CPython 3.12 tasks.py semantics: '
                'done-callbacks count children, results in child order, siblings never cancelled)',
                'awaitables are distinct objects (gather de-duplicates identical awaitables); nobody cancels the consumer',
-               'exception classes are ordinary subclasses of Exception / BaseException; CancelledError, KeyboardInterrupt '
-               'and SystemExit (treated specially by asyncio tasks) are outside the input space']
+               'exception classes are ordinary subclasses of Exception / BaseException; a task / future that the SCRIPT '
+               'cancels (before the call or while gather waits) is inside the input space: its outcome is a '
+               'CancelledError (a BaseException-only class of the forest), a cancelled task having the fixed identity 997 '
+               'because 3.12 tasks drop the cancel message; awaitables that themselves raise CancelledError / '
+               'KeyboardInterrupt / SystemExit (treated specially by asyncio tasks) and subclasses of CancelledError '
+               'stay outside',
+               'class forests number every class after its parent (forest_ok; the driver builds each class from its '
+               'parent class object, so it cannot build another kind): hypothesis of monitor_sound, '
+               'isinstance_is_ancestor, raise_first_over_hierarchy']
 TRUSTED = ['harness/props/C20.py driver + harness/vloop.py (virtual time) and coq/theories/Case_C20.v (agree/ok)',
            'modelled, not verified: asyncio.gather, Task/Future completion, isinstance over single-inheritance classes']
 ALLOWED_AXIOMS = []
-CLEAN_FOR_THOROUGH = ['theories/Gather.vo', 'theories/GatherInv.vo', 'theories/Case_C20.vo', 'theories/GatherMon.vo']
+CLEAN_FOR_THOROUGH = ['theories/Gather.vo', 'theories/GatherInv.vo', 'theories/Case_C20.vo', 'theories/GatherMon.vo',
+                      'theories/GatherSound.vo']
 
 # fixed forest of the exhaustive layer: parent of class i
 #   0 BaseException, 1 Exception, 2 EBase(Exception), 3 ESub(EBase), 4 EOther(Exception),
@@ -54,13 +64,20 @@ H7 = [None, 0, 1, 2, 1, 0, 5]
 _CLASS_CACHE = {}
 
 
-def classes_for(hier):
-    key = tuple(hier)
+def classes_for(hier, cancel_cls=None):
+    """class objects of the forest; class `cancel_cls` (a child of BaseException without
+    descendants) is asyncio.CancelledError itself"""
+    import asyncio
+    key = (tuple(hier), cancel_cls)
     cl = _CLASS_CACHE.get(key)
     if cl is None:
         cl = [BaseException, Exception]
         for i in range(2, len(hier)):
-            cl.append(type(f'HExc{i}', (cl[hier[i]],), {}))
+            if i == cancel_cls:
+                assert hier[i] == 0 and cancel_cls not in hier
+                cl.append(asyncio.CancelledError)
+            else:
+                cl.append(type(f'HExc{i}', (cl[hier[i]],), {}))
         _CLASS_CACHE[key] = cl
     return cl
 
@@ -70,7 +87,7 @@ def run_impl(case):
     from ..vloop import Sim, TICK
     from aiuti.asyncio import gather_excs, raise_first_exc
     logging.disable(logging.CRITICAL)
-    cl = classes_for(case['hier'])
+    cl = classes_for(case['hier'], case.get('cancel_cls'))
     specs = case['aws']
     n = len(specs)
     sim = Sim()
@@ -87,22 +104,37 @@ def run_impl(case):
         return e
 
     def eid_of(e):
+        if type(e) is asyncio.CancelledError:
+            # gather builds a fresh CancelledError(<cancel message>) for a cancelled child
+            m = e.args[0] if e.args else ''
+            return int(m[4:]) if isinstance(m, str) and m.startswith('eid:') and m[4:].isdigit() else 997
         if isinstance(e, BaseException):
             return getattr(e, 'eid', 999)
         return 998
+
+    scripted_cancel = set()     # awaitables the SCRIPT cancels (their outcome is CancelledError)
 
     async def coro(i, d, out):
         try:
             if d:
                 await asyncio.sleep(d * TICK)
         except asyncio.CancelledError:
-            if not state['closing']:
+            if not state['closing'] and i not in scripted_cancel:
                 ends[i] = [2, sim.ticks()]
             raise
         ends[i] = [1, sim.ticks()]
         if out is not None:
             raise mkexc(i, out)
         return ('ret', i)
+
+    def canceller(i):
+        # the script's own cancellation of task / future i: that IS its outcome (kind 1)
+        def cb():
+            if not pre[i].done():
+                scripted_cancel.add(i)
+                ends[i] = [1, sim.ticks()]
+                pre[i].cancel(msg=f'eid:{i + 1}')
+        return cb
 
     def resolver(i, fut, out):
         def cb():
@@ -156,6 +188,19 @@ def run_impl(case):
                     fut = loop.create_future()
                     pre[i] = fut
                     loop.call_later(d * TICK, resolver(i, fut, out))
+                elif f == 'XT':
+                    # a task the script cancels at tick d (d = 0: before its first step)
+                    pre[i] = loop.create_task(coro(i, d + 7, None))
+                    if d == 0:
+                        canceller(i)()
+                    else:
+                        loop.call_later(d * TICK, canceller(i))
+                elif f == 'XF':
+                    pre[i] = loop.create_future()
+                    if d == 0:
+                        canceller(i)()
+                    else:
+                        loop.call_later(d * TICK, canceller(i))
         elif ev[0] == 'call':
             loop.create_task(consumer())
 
@@ -187,8 +232,12 @@ def _hier(h):
 def _aws(aws):
     items = []
     for i, (f, d, out) in enumerate(aws):
-        form = {'C': 'Coro', 'T': 'Task', 'F': 'Fut'}[f]
-        o = 'Ret' if out is None else f'(Raise {C.coq_nat(out)} {C.coq_nat(i + 1)})'
+        form = {'C': 'Coro', 'T': 'Task', 'F': 'Fut', 'XT': 'Task', 'XF': 'Fut'}[f]
+        # a cancelled TASK shows up in gather's results as a fresh CancelledError('') (3.12 tasks do
+        # not keep the cancel message): identity 997 whatever the position; a cancelled plain
+        # future keeps its message, hence its identity
+        eid = 997 if f == 'XT' else i + 1
+        o = 'Ret' if out is None else f'(Raise {C.coq_nat(out)} {C.coq_nat(eid)})'
         items.append(f'mkaw {form} {C.coq_N(d)} {o}')
     return C.coq_list(items)
 
@@ -216,9 +265,37 @@ def signature(case, o):
 
 # ---- generators -------------------------------------------------------------
 
-def mk(mode, aws, only, hier=None, tcall=0, cont='list'):
-    return dict(mode=mode, hier=list(H7 if hier is None else hier), only=only, tcall=tcall,
-                aws=[list(a) for a in aws], cont=cont)
+def mk(mode, aws, only, hier=None, tcall=0, cont='list', cancel_cls=None):
+    c = dict(mode=mode, hier=list(H7 if hier is None else hier), only=only, tcall=tcall,
+             aws=[list(a) for a in aws], cont=cont)
+    if cancel_cls is not None:
+        c['cancel_cls'] = cancel_cls
+    return c
+
+
+# H7 plus class 7 = asyncio.CancelledError (a child of BaseException): outcome of the awaitables the
+# script itself cancels (forms XT: task, XF: future; the delay is the tick of the cancellation)
+H8 = H7 + [0]
+CC = 7
+
+
+def gen_cancel_block():
+    """tasks / futures cancelled by the script before or while gather runs: gather reports a
+    CancelledError result for them (a BaseException: yielded iff `only` admits it)"""
+    out = []
+    kinds = [('C', None), ('C', 2), ('XT', CC), ('XF', CC)]
+    for n in (1, 2):
+        for ks in itertools.product(kinds, repeat=n):
+            if not any(k[0][0] == 'X' for k in ks):
+                continue
+            for dv in weak_orderings(n):
+                for tcall in (0, 1):
+                    for only in (None, 1, CC, 5):
+                        for mode in ('gather', 'raise'):
+                            out.append(mk(mode, [(ks[i][0], dv[i], ks[i][1]) for i in range(n)], only,
+                                          hier=H8, tcall=tcall, cancel_cls=CC,
+                                          cont=['list', 'tuple', 'gen'][(len(out)) % 3]))
+    return out
 
 
 def corpus():
@@ -238,6 +315,15 @@ def corpus():
         # tasks / futures that are already done when the call is made
         mk('gather', [('T', 1, 2), ('F', 5, 3), ('C', 1, None), ('F', 0, 5)], None, tcall=3),
         mk('raise', [('T', 1, None), ('F', 5, 3), ('C', 1, 2), ('T', 0, None)], 1, tcall=2, cont='gen'),
+        # tasks / futures cancelled by the script before gather: CancelledError results, admitted by the
+        # default `only` and by CancelledError, not by Exception
+        mk('gather', [('XT', 0, CC), ('C', 1, 2), ('XF', 0, CC)], None, hier=H8, tcall=1, cancel_cls=CC),
+        mk('gather', [('XT', 0, CC), ('C', 1, 2), ('XF', 0, CC)], 1, hier=H8, tcall=1, cancel_cls=CC),
+        mk('gather', [('XT', 0, CC), ('C', 1, 2), ('XF', 0, CC)], CC, hier=H8, tcall=1, cancel_cls=CC, cont='gen'),
+        mk('raise', [('C', 1, None), ('XT', 0, CC), ('C', 1, 2)], None, hier=H8, cancel_cls=CC),
+        mk('raise', [('C', 1, None), ('XT', 0, CC), ('C', 1, 2)], 1, hier=H8, cancel_cls=CC),
+        # ... and cancelled by a third party WHILE gather is waiting (tick 2 of 3)
+        mk('gather', [('C', 3, 2), ('XT', 2, CC), ('C', 1, None)], None, hier=H8, cancel_cls=CC),
     ]
 
 
@@ -272,7 +358,7 @@ def gen_exhaustive(tier, seed):
                             fs = ['C'] * n
                         out.append(mk(mode, [(fs[i], dv[i], oc[i]) for i in range(n)], only,
                                       cont=['list', 'tuple', 'gen'][k % 3]))
-    return out
+    return out + gen_cancel_block()
 
 
 def rand_forest(rnd):
@@ -297,13 +383,19 @@ def gen_random(tier, seed):
     for _ in range(N):
         h = rand_forest(rnd)
         m = len(h)
+        cc = None
+        if rnd.random() < 0.2:
+            cc = len(h)          # one more class, child of BaseException: asyncio.CancelledError
+            h.append(0)
         n = rnd.choice([2, 3, 3, 4, 4, 5, 5, 5, 6, 7])
         pfail = rnd.choice([0.3, 0.6, 0.9])
         aws = []
         for i in range(n):
             out_c = rnd.randint(2, m - 1) if rnd.random() < pfail else None
             aws.append((rnd.choice('CCCTF'), rnd.randint(0, 6), out_c))
-        only = None if rnd.random() < 0.15 else rnd.randint(0, m - 1)
+            if cc is not None and rnd.random() < 0.35:
+                aws[-1] = (rnd.choice(['XT', 'XF']), rnd.choice([0, 0, 1, 2, 3, 5]), cc)
+        only = None if rnd.random() < 0.15 else rnd.randint(0, len(h) - 1)
         if rnd.random() < 0.5 and any(a[2] is not None for a in aws):
             # bias towards an `only` that is an ancestor of some raised class
             c = rnd.choice([a[2] for a in aws if a[2] is not None])
@@ -312,7 +404,8 @@ def gen_random(tier, seed):
                 chain.append(h[chain[-1]])
             only = rnd.choice(chain)
         out.append(mk(rnd.choice(['gather', 'gather', 'raise']), aws, only, hier=h,
-                      tcall=rnd.choice([0, 0, 1, 2, 3, 4]), cont=rnd.choice(['list', 'tuple', 'gen'])))
+                      tcall=rnd.choice([0, 0, 1, 2, 3, 4]), cont=rnd.choice(['list', 'tuple', 'gen']),
+                      cancel_cls=cc))
     return out
 
 
@@ -328,7 +421,7 @@ def shrink_candidates(case):
     if case['tcall']:
         out.append(dict(case, tcall=0))
     for i, a in enumerate(aws):
-        if a[0] != 'C':
+        if a[0] in ('T', 'F'):
             out.append(dict(case, aws=aws[:i] + [['C', a[1], a[2]]] + aws[i + 1:]))
         if a[1] > 0:
             out.append(dict(case, aws=aws[:i] + [[a[0], a[1] - 1, a[2]]] + aws[i + 1:]))
@@ -340,7 +433,7 @@ def shrink_candidates(case):
 def distribution(cases, obs):
     d = dict(gather=0, raise_first=0, awaitables=0, failures=0, base_only_failures=0, coroutines=0, tasks=0,
              futures=0, only_default=0, yields=0, raised=0, returned_none=0, call_after_start=0,
-             finishing_order_differs=0, len_hist={})
+             finishing_order_differs=0, cancelled_by_script=0, len_hist={})
     for c, o in zip(cases, obs):
         d['gather' if c['mode'] == 'gather' else 'raise_first'] += 1
         n = len(c['aws'])
@@ -348,7 +441,8 @@ def distribution(cases, obs):
         d['awaitables'] += n
         h = c['hier']
         for f, dl, oc in c['aws']:
-            d[{'C': 'coroutines', 'T': 'tasks', 'F': 'futures'}[f]] += 1
+            d[{'C': 'coroutines', 'T': 'tasks', 'F': 'futures', 'XT': 'tasks', 'XF': 'futures'}[f]] += 1
+            d['cancelled_by_script'] += f[0] == 'X'
             if oc is not None:
                 d['failures'] += 1
                 x = oc
@@ -368,14 +462,24 @@ def distribution(cases, obs):
 
 LEVEL_TEXT = ('gather_excs / raise_first_exc are modelled on top of an explicit machine for '
               'asyncio.gather(return_exceptions=True) driven by the finishing schedule (coq/theories/Gather.v); '
-              'props/C20.v proves for ALL awaitable lists, delays, call ticks, isinstance relations and finishing orders: '
-              'the yields are exactly the failures that are instances of `only`, in input order; every awaitable has '
-              'completed (none cancelled or skipped) no later than the first yield; the yields do not depend on delays / '
-              'finishing order; raise_first_exc raises the first of them or returns None.  Tied to /repo by running the '
-              'real functions on a virtual-time loop for every outcome list x every weak ordering of finishing times '
-              '(short lists) and random longer ones, comparing the whole observation with the model inside Coq.')
+              'props/C20.v proves (14 theorems) for ALL awaitable lists, delays, call ticks, isinstance relations and '
+              'finishing orders: the yields are exactly the failures that are instances of `only`, in input order '
+              '(gather_excs_spec, expected_membership); every awaitable has completed (none cancelled or skipped) no later '
+              'than the first yield (all_completed_before_first_yield) and, for every completion order, ends with ITS OWN '
+              'scripted outcome in its slot, the completion log being independent of anybody\'s outcome '
+              '(each_completes_with_its_own_outcome, completion_log_independent_of_outcomes); the yields do not depend on '
+              'delays / finishing order; raise_first_exc raises the first of them or returns None (raise_first_spec), and '
+              'over a class forest exactly the first failure whose class has `only` as itself-or-ancestor, '
+              'BaseException-only branches included (isinstance_is_ancestor, raise_first_over_hierarchy).  The trace '
+              'monitor is proved complete w.r.t. the model (monitor_accepts_model) and sound AND complete w.r.t. a '
+              'model-free readable statement about the observed trace alone (monitor_sound, monitor_sound_converse, '
+              'selected_unique).  Tied to /repo by running the real functions on a virtual-time loop for every outcome '
+              'list x every weak ordering of finishing times (short lists), script-cancelled tasks/futures, and random '
+              'longer ones, comparing the whole observation with the model inside Coq.')
 LEVEL_NOTE = ('trusted: Coq kernel + vm_compute; no axioms (closed under the global context); asyncio.gather and task '
-              'completion are modelled primitives validated only by the correspondence runs; harness/props/C20.py, '
+              'completion are modelled primitives validated only by the correspondence runs; the forest theorems assume '
+              'forest_ok (parents numbered before children; true by construction of the driver); harness/props/C20.py, '
               'harness/vloop.py, coq/theories/Case_C20.v')
-TECHNIQUE = ('Coq proof (invariant of the gather machine over arbitrary finishing schedules, induction) + differential '
-             'correspondence on a virtual-time asyncio loop evaluated by vm_compute')
+TECHNIQUE = ('Coq proof (invariant of the gather machine over arbitrary finishing schedules, induction; monitor '
+             'soundness/completeness against a relational statement) + differential correspondence on a virtual-time '
+             'asyncio loop evaluated by vm_compute')
